@@ -47,6 +47,9 @@ pub struct Profile {
     pub subsecond_pct: u64,
     /// chance (per admin op) of a registry operation that must be refused (re-add / remove absent)
     pub bad_registry_pct: u64,
+    /// chance that a history is a long one (400-1500 steps instead of `steps`): state that only accumulates
+    /// (reserve snapshots, bad debt, registry churn, funding chains) needs length, not more histories
+    pub long_pct: u64,
 }
 
 impl Default for Profile {
@@ -73,6 +76,7 @@ impl Default for Profile {
             pyramid_pct: 50,
             subsecond_pct: 50,
             bad_registry_pct: 25,
+            long_pct: 2,
         }
     }
 }
@@ -1406,7 +1410,7 @@ impl Gen {
 
     /// one W-ENG history
     pub fn run_history(&mut self, h: &mut History, r: &mut Report) {
-        let n = self.rng.range(self.prof.steps.0, self.prof.steps.1);
+        let n = if self.rng.chance(self.prof.long_pct, 100) { self.rng.range(400, 1500) } else { self.rng.range(self.prof.steps.0, self.prof.steps.1) };
         // seed a few positions so that early steps are not vacuous
         for _ in 0..3 {
             self.rand_open(h, r);
